@@ -13,7 +13,7 @@ from .typefacts import TypeFacts
 
 PERCALL = {"StateBase", "StateCore", "StateBlock", "StateInline", "Token", "Delimiter", "_Result", "Scanned"}
 SHARED = {"MarkdownIt", "ParserCore", "ParserBlock", "ParserInline", "Ruler", "Rule", "RendererHTML", "RendererProtocol",
-          "OptionsDict", "OptionsType", "PresetType", "RuleOptionsType"}
+          "OptionsDict"}
 FRESH_CALLS = {"list", "dict", "set", "sorted", "reversed", "tuple", "frozenset", "str", "int", "len", "range", "enumerate",
                "zip", "bool", "float"}
 FRESH_STR_METHODS = {"split", "rsplit", "splitlines", "copy", "strip", "lower", "upper", "replace", "join", "format",
@@ -132,6 +132,8 @@ class Effects:
             return self.fresh_expr(f, e.body, seen) and self.fresh_expr(f, e.orelse, seen)
         if isinstance(e, ast.BoolOp):
             return all(self.fresh_expr(f, v, seen) for v in e.values)
+        if isinstance(e, ast.NamedExpr):
+            return self.fresh_expr(f, e.value, seen)
         if isinstance(e, ast.Name):
             if e.id in seen:
                 return True
@@ -189,7 +191,7 @@ class Effects:
         return ok
 
     # ---------------------------------------------------------------- classification
-    def classify(self, f: Func, obj: ast.AST) -> tuple[str, str]:
+    def classify(self, f: Func, obj: ast.AST, _depth: int = 0) -> tuple[str, str]:
         sc = self.tf.scope(f)
         path = access_path(obj)
         kinds: list[str] = []
@@ -216,15 +218,63 @@ class Effects:
             return "local", "/".join(kinds)
         if kinds[0] == "scalar":
             return "scalar", "/".join(kinds)
+        # root ownership through the bindings of a local alias (cache = state.cache; for tok in state.tokens: ...)
+        if isinstance(root, ast.Name) and _depth < 5:
+            srcs = self.binding_sources(f, root.id)
+            if srcs:
+                cats = []
+                for s_ in srcs:
+                    if self.fresh_expr(f, s_):
+                        cats.append("local")
+                    else:
+                        cats.append(self.classify(f, s_, _depth + 1)[0])
+                for bad in cats:
+                    if bad.startswith(("shared", "global", "unknown")):
+                        return bad, "via binding: " + "/".join(cats)
+                for pref in ("env", "percall", "local", "scalar"):
+                    if pref in cats:
+                        return pref, "via binding: " + "/".join(cats)
         return "unknown", "/".join(kinds)
+
+    def binding_sources(self, f: Func, name: str) -> list[ast.AST]:
+        """Expressions a local may be bound from (assigned values; iterated expressions for loop targets)."""
+        if name in {a.arg for a in f.node.args.args + f.node.args.kwonlyargs + f.node.args.posonlyargs}:
+            return []
+        out: list[ast.AST] = []
+        for n in own_nodes(f.node):
+            if isinstance(n, ast.Name) and n.id == name and isinstance(n.ctx, ast.Store):
+                par = f.module.parents.get(n)
+                if isinstance(par, ast.Assign) and n in par.targets:
+                    out.append(par.value)
+                elif isinstance(par, ast.AnnAssign) and par.target is n and par.value is not None:
+                    out.append(par.value)
+                elif isinstance(par, (ast.For, ast.comprehension)) and par.target is n:
+                    it = par.iter
+                    if isinstance(it, ast.Call) and isinstance(it.func, ast.Name) and it.func.id in ("reversed", "sorted", "list", "iter") and it.args:
+                        it = it.args[0]
+                    out.append(it)
+                elif isinstance(par, ast.Tuple):
+                    gp = f.module.parents.get(par)
+                    if isinstance(gp, (ast.For, ast.comprehension)) and isinstance(gp.iter, ast.Call) and isinstance(gp.iter.func, ast.Name) \
+                            and gp.iter.func.id == "enumerate" and gp.iter.args and par.elts and par.elts[-1] is n:
+                        out.append(gp.iter.args[0])
+                    else:
+                        return []
+                elif isinstance(par, ast.NamedExpr):
+                    out.append(par.value)
+                elif isinstance(par, ast.AugAssign):
+                    continue
+                else:
+                    return []
+        return out
 
     def _kind_of_type(self, t: Any) -> str:
         if t == "Env":
             return "env"
         if isinstance(t, str):
-            if t in SHARED:
+            if t.split("@")[0] in SHARED:
                 return "shared:" + t
-            if t in PERCALL:
+            if t.split("@")[0] in PERCALL:
                 return "percall"
             if t in ("str", "int", "bool", "float", "NoneType", "bytes"):
                 return "scalar"
